@@ -322,13 +322,13 @@ def e2e_term(c, o):
 
 
 def gen(rng, tier):
-    scale = 1 if tier == "quick" else 12
+    scale = 1 if tier == "quick" else 10
     cases = gen_seq_directed(rng)
     for _ in range(10 if tier == "quick" else 60):
         cases.append(gen_e2e(rng))
-    for _ in range(200 * scale):
+    for _ in range(160 * scale):
         cases.append(gen_seq(rng))
-    for _ in range(170 * scale):
+    for _ in range(140 * scale):
         cases.append(gen_lin(rng))
     for s in range(3 * (1 if tier == "quick" else 6)):
         cases.append({"k": "stress", "secret": "s3cret", "ids": ["alice", "bob", "carol"][:1 + s % 3], "g": 8,
@@ -428,8 +428,8 @@ def nontrivial(c, o):
 def fingerprint(c, o):
     """stable name of the violated clause (one VIOLATION line per clause and case kind)"""
     why = o.get("why") or ""
-    for key, name in (("conservation broken", "conservation"), ("final snapshot", "conservation"), ("proxied", "kick-exactly-once"), ("could not proxy", "kick-exactly-once"), ("LogTraffic(", "kick-exactly-once"), ("kicked", "kick-exactly-once"),
-                      ("refused", "kick-exactly-once"), ("online", "online-count"), ("API secret", "unauthorized-request-served"), ("panic", "panic"), ("malformed", "malformed-response")):
+    for key, name in (("API secret", "unauthorized-request-served"), ("conservation broken", "conservation"), ("final snapshot", "conservation"), ("proxied", "kick-exactly-once"), ("could not proxy", "kick-exactly-once"), ("LogTraffic(", "kick-exactly-once"), ("kicked", "kick-exactly-once"),
+                      ("refused", "kick-exactly-once"), ("online", "online-count"), ("panic", "panic"), ("malformed", "malformed-response")):
         if key in why:
             return "C15-%s-%s" % (c["k"], name)
     return None
